@@ -31,6 +31,7 @@ type Obligation struct {
 	nDecl  int
 	ctx    *Ctx
 	Result SolverResult
+	block  int      // block of the verified function the obligation arises in
 	extra  []string // extra assertions local to this obligation
 	vals   map[string]string // terms to evaluate in a model (for replay)
 }
@@ -160,7 +161,7 @@ func (x *Exec) oblige(st *State, kind string, pos token.Pos, goal string, tag st
 		props = x.props
 	}
 	o := &Obligation{Name: name, Kind: kind, Func: x.key, Props: props, Tag: tag, Pos: where, Text: txt,
-		guard: st.guard, goal: goal, nAssert: len(x.c.assert), nDecl: len(x.c.decls), ctx: x.c}
+		guard: st.guard, goal: goal, nAssert: len(x.c.assert), nDecl: len(x.c.decls), ctx: x.c, block: x.c.curBlock}
 	if x.inline {
 		// obligations inside inlined bodies belong to the inlining function
 		o.Func = x.root().key
@@ -297,6 +298,17 @@ func (x *Exec) run(st0 *State) {
 			}
 		}
 	}
+	// defer sites: activation flags start false (a path that does not execute the
+	// defer statement must not run the deferred call)
+	for _, b := range fn.Blocks {
+		for _, in := range b.Instrs {
+			if d, ok := in.(*ssa.Defer); ok {
+				key := fmt.Sprintf("L:%s:defer%d", x.prefix, len(x.defers))
+				x.defers = append(x.defers, deferRec{key: key, call: d})
+				st0.cells[key] = Val{T: types.Typ[types.Bool], S: "false"}
+			}
+		}
+	}
 	// reverse postorder ignoring back edges
 	order := x.rpo()
 	incoming := map[*ssa.BasicBlock]*blockIn{}
@@ -318,6 +330,9 @@ func (x *Exec) run(st0 *State) {
 		if li, ok := x.loops[b]; ok {
 			st = x.enterLoop(li, in.edges)
 		} else {
+			if !x.inline {
+				x.c.curBlock = b.Index
+			}
 			st = x.c.merge(in.edges)
 			x.bindPhis(b, in.edges, st)
 		}
@@ -594,6 +609,9 @@ func (x *Exec) loopContract(li *loopInfo) *LoopContract {
 }
 
 func (x *Exec) enterLoop(li *loopInfo, edges []edgeState) *State {
+	if !x.inline {
+		x.c.curBlock = li.header.Index
+	}
 	entry := x.c.merge(edges)
 	x.bindPhis(li.header, edges, entry)
 	lc := x.loopContract(li)
@@ -812,6 +830,9 @@ func (x *Exec) execTail(b *ssa.BasicBlock, from int, st *State) {
 }
 
 func (x *Exec) execBlockWith(b *ssa.BasicBlock, st *State, push func(from, to *ssa.BasicBlock, s *State)) {
+	if !x.inline {
+		x.c.curBlock = b.Index
+	}
 	for _, in := range b.Instrs {
 		switch in := in.(type) {
 		case *ssa.Phi:
